@@ -2,6 +2,7 @@ package vsync
 
 import (
 	"context"
+	"sync/atomic"
 	"fmt"
 	"iter"
 	"reflect"
@@ -718,5 +719,28 @@ var ProbeFn func(site string, recv any)
 func Probe(site string, recv any) {
 	if f := ProbeFn; f != nil {
 		f(site, recv)
+	}
+}
+
+// ----------------------------------------------------------------------------------------- loop ticks
+
+var tickHandler atomic.Pointer[func(site string, key any)]
+
+// SetLoopTickHandler installs a process-wide loop-tick handler (nil removes it). The handler runs at every
+// iteration of the instrumented loops, in the goroutine executing the loop; key is the first parameter of
+// the enclosing function (it identifies the call without needing goroutine identity). The handler may panic
+// to abort a loop that provably makes no progress: a deterministic step budget instead of a wall-clock.
+func SetLoopTickHandler(f func(site string, key any)) {
+	if f == nil {
+		tickHandler.Store(nil)
+		return
+	}
+	tickHandler.Store(&f)
+}
+
+// LoopTick is inserted by the instrumenter at the top of the loop bodies of configured functions.
+func LoopTick(site string, key any) {
+	if h := tickHandler.Load(); h != nil {
+		(*h)(site, key)
 	}
 }
